@@ -436,3 +436,102 @@ func TestVerifBounded_C07_MultiHistories(t *testing.T) {
 	}
 	fmt.Printf("BOUNDED name=C07.multi-histories cases=%d nontrivial=%d exhaustive=true domain=\"row-stored alignments of 1..%d rows (plain and quality), row lengths 0..%d, offsets -1..%d; every history of 1..%d operations from {AppendColumns, AppendEach with unequal runs, Delete, Flush at either/both ends, Truncate, Subseq, Clone then mutate, RevComp, Add}; after each step the row view, the column view with and without fill, the span and the consensus of uniform columns are compared with a grid model\"\n", cases, nontrivial, maxRows, maxLen, maxOff-1, depth)
 }
+
+// TestVerifBounded_C05_MultiAlgebra: RevComp mirrors every row about the alignment's span (letters complemented,
+// qualities travelling), twice restores letters, qualities and coordinates; Reverse twice is the identity on
+// letters; Clone is independent.
+func TestVerifBounded_C05_MultiAlgebra(t *testing.T) {
+	maxRows, maxLen, maxOff := 3, 3, 3
+	if os.Getenv("VERIF_TIER") == "thorough" {
+		maxRows, maxLen, maxOff = 3, 4, 4
+	}
+	cases, nontrivial, failed := 0, 0, 0
+	report := func(g verifGrid, quality bool, what string, err error) {
+		failed++
+		if failed <= 10 {
+			t.Errorf("grid %v (quality=%v) %s: %v", g, quality, what, err)
+		}
+	}
+	letters := func(m *Multi) [][]alphabet.QLetter {
+		var out [][]alphabet.QLetter
+		for _, r := range m.Seq {
+			var row []alphabet.QLetter
+			for p := r.Start(); p < r.End(); p++ {
+				row = append(row, r.At(p))
+			}
+			out = append(out, row)
+		}
+		return out
+	}
+	for _, quality := range []bool{false, true} {
+		verifGrids(maxRows, maxLen, maxOff, func(g0 verifGrid) {
+			cases++
+			ragged := false
+			s0, e0 := g0.span()
+			for _, r := range g0.rows {
+				if r.off != s0 || r.off+len(r.ls) != e0 {
+					ragged = true
+				}
+			}
+			if ragged {
+				nontrivial++
+			}
+			ops := verifOps()
+			var revcomp verifOp
+			for _, o := range ops {
+				if o.name == "RevComp" {
+					revcomp = o
+				}
+			}
+			// once: mirrored about the span
+			g := g0.clone()
+			m := g.build(quality)
+			if _, err := revcomp.do(m, &g, quality); err != nil {
+				report(g0, quality, "RevComp", err)
+				return
+			}
+			if err := verifAgree(m, g, quality); err != nil {
+				report(g0, quality, "RevComp", err)
+				return
+			}
+			// twice: everything restored
+			m.RevComp()
+			if err := verifAgree(m, g0, quality); err != nil {
+				report(g0, quality, "RevComp twice", err)
+				return
+			}
+			// Reverse twice: identity on letters
+			m2 := g0.build(quality)
+			before := letters(m2)
+			m2.Reverse()
+			m2.Reverse()
+			after := letters(m2)
+			for i := range before {
+				if len(before[i]) != len(after[i]) {
+					report(g0, quality, "Reverse twice", fmt.Errorf("row %d changed length", i))
+					return
+				}
+				for k := range before[i] {
+					if before[i][k].L != after[i][k].L || (quality && before[i][k].Q != after[i][k].Q) {
+						report(g0, quality, "Reverse twice", fmt.Errorf("row %d letter %d changed", i, k))
+						return
+					}
+				}
+			}
+			// Clone then mutate either copy
+			m3 := g0.build(quality)
+			c := m3.Clone().(*Multi)
+			c.RevComp()
+			if err := verifAgree(m3, g0, quality); err != nil {
+				report(g0, quality, "original after RevComp of the clone", err)
+				return
+			}
+			c2 := m3.Clone().(*Multi)
+			m3.RevComp()
+			if err := verifAgree(c2, g0, quality); err != nil {
+				report(g0, quality, "clone after RevComp of the original", err)
+			}
+		})
+	}
+	fmt.Printf("BOUNDED name=C05.multi-algebra cases=%d nontrivial=%d exhaustive=true domain=\"row-stored alignments of 1..%d rows (plain and quality letters), row lengths 0..%d, offsets -1..%d (non-trivial: ragged rows); RevComp once (mirrored about the span, complemented, qualities travelling) and twice (restored), Reverse twice (letters), Clone then RevComp of either copy\"\n", cases, nontrivial, maxRows, maxLen, maxOff-1)
+}
